@@ -20,6 +20,8 @@ from vizier._src.pythia import local_policy_supporters as lps
 from vizier.interfaces import serializable
 
 ABSENT, ACTIVE, REQUESTED, COMPLETED, INFEASIBLE, STOPPING = range(6)
+INFEASIBLE_NOMEAS = 6   # completed as infeasible without any measurement (what the wire conversion produces)
+_DONE = (COMPLETED, INFEASIBLE, INFEASIBLE_NOMEAS)
 KF_SHORTCUT = 'C12-shortcut-len-equals-max-id-after-delete'
 ASSUMPTIONS = [
     'designer = recording stub (records the ids passed to update, persists them through dump/load)',
@@ -72,6 +74,8 @@ def _trial(i, kind):
     t.complete(vz.Measurement(), infeasibility_reason='bad')
   elif kind == STOPPING:
     t.stopping_reason = 'stop'
+  elif kind == INFEASIBLE_NOMEAS:
+    t = vz.Trial(id=i, parameters={'x': 0.25}, infeasibility_reason='bad')
   return t
 
 
@@ -79,7 +83,7 @@ def _run(kinds, inc, mode, count, args):
   n = len(kinds)
   # invariant of the pre-state
   for k, i in zip(kinds, inc):
-    if i and k not in (ABSENT, COMPLETED, INFEASIBLE):
+    if i and k not in (ABSENT,) + _DONE:
       return True
   with NoTracing():
     problem = _problem()
@@ -88,10 +92,10 @@ def _run(kinds, inc, mode, count, args):
       if k != ABSENT:
         supporter._trials[idx + 1] = _trial(idx + 1, k)
   inc_ids = sorted(i + 1 for i in range(n) if inc[i])
-  completed_ids = sorted(i + 1 for i in range(n) if kinds[i] in (COMPLETED, INFEASIBLE))
+  completed_ids = sorted(i + 1 for i in range(n) if kinds[i] in _DONE)
   active_ids = sorted(i + 1 for i in range(n) if kinds[i] == ACTIVE)
   max_id = max([i + 1 for i in range(n) if kinds[i] != ABSENT] or [0])
-  if known(KF_SHORTCUT) and mode in (0, 1):
+  if known(KF_SHORTCUT) and mode in (0, 1, 4):
     # open finding: the shortcut `len(incorporated) == max_trial_id` fires although an un-incorporated id <= max exists
     if len(inc_ids) == max_id and [i for i in completed_ids if i not in inc_ids]:
       return True
@@ -122,11 +126,17 @@ def _run(kinds, inc, mode, count, args):
     delta.on_study.ns(live._ns_root).attach(live.dump())
     supporter._UpdateMetadata(delta)
     policy = dp.PartiallySerializableDesignerPolicy(supporter.study_config, supporter, factory)
+  elif mode == 4:      # rebuilt; the cache state decodes but the designer state does not (HarmlessDecodeError)
+    delta = vz.MetadataDelta()
+    delta.on_study.ns(live._ns_root).attach(live.dump())
+    supporter._UpdateMetadata(delta)
+    del supporter.study_config.metadata.ns(live._ns_root).ns(live._ns_designer)['seen']
+    policy = dp.PartiallySerializableDesignerPolicy(supporter.study_config, supporter, factory)
   else:                # rebuilt, state lost
     policy = dp.PartiallySerializableDesignerPolicy(problem, supporter, factory)
   decision = policy.suggest(pythia.SuggestRequest(study_descriptor=supporter.study_descriptor(), count=count))
   d = policy.designer
-  if mode == 2:
+  if mode in (2, 4):   # a fresh designer must be given everything (never a half-restored cache/designer pair)
     want_completed = completed_ids
     want_cache = set(completed_ids)
   else:
@@ -144,6 +154,8 @@ def _run(kinds, inc, mode, count, args):
 
 def _step3(k1, k2, k3, i1, i2, i3, mode):
   kinds = [conc(k1, 0, 4), conc(k2, 0, 4), conc(k3, 0, 4)]
+  if kinds[1] == INFEASIBLE:
+    kinds[1] = INFEASIBLE_NOMEAS      # trial 2, when infeasible, carries no measurement
   inc = [cbool(i1), cbool(i2), cbool(i3)]
   return _run(kinds, inc, mode, 1, (k1, k2, k3, i1, i2, i3))
 
@@ -172,12 +184,20 @@ def step3_lost(k1: int, k2: int, k3: int, i1: bool, i2: bool, i3: bool) -> bool:
   return _step3(k1, k2, k3, i1, i2, i3, 2)
 
 
-def step3_scratch(k1: int, k2: int, k3: int, count: int) -> bool:
+def step3_corrupt_designer_state(k1: int, k2: int, k3: int, i1: bool, i2: bool, i3: bool) -> bool:
   """
-  pre: 0 <= k1 <= 5 and 0 <= k2 <= 5 and 0 <= k3 <= 5 and 1 <= count <= 2
+  pre: 0 <= k1 <= 4 and 0 <= k2 <= 4 and 0 <= k3 <= 4
   post: _
   """
-  kinds = [conc(k1, 0, 5), conc(k2, 0, 5), conc(k3, 0, 5)]
+  return _step3(k1, k2, k3, i1, i2, i3, 4)
+
+
+def step3_scratch(k1: int, k2: int, k3: int, count: int) -> bool:
+  """
+  pre: 0 <= k1 <= 6 and 0 <= k2 <= 6 and 0 <= k3 <= 6 and 1 <= count <= 2
+  post: _
+  """
+  kinds = [conc(k1, 0, 6), conc(k2, 0, 6), conc(k3, 0, 6)]
   return _run(kinds, [False, False, False], 3, conc(count, 1, 2), (k1, k2, k3, count))
 
 
